@@ -46,6 +46,7 @@ type verifCase struct {
 	Gate    int         `json:"gate1"`    // the generator blocks before sending item Gate-1 until released (0: none)
 	Release string      `json:"release"` // gate: "re" = after the reducer returned (bounded wait), "now" = at once
 	AEOps   []verifAct  `json:"aeops"`   // fn AtomicError: set k | load
+	RRecover bool       `json:"rrecover"` // the reducer has its own `defer recover()` (swallows any panic inside itself)
 	Barrier int         `json:"barrier"` // mapper op "barrier" waits (bounded) until this many mappers have started
 }
 
@@ -67,8 +68,22 @@ type verifSliceErr []int
 func (e verifSliceErr) Error() string { return "verif-slice-err" }
 
 // error codes: 0 untyped nil, 1 typed nil pointer, 2 typed nil slice, 3 non-nil pointer, >= 100 value type
+// errors that ARE or WRAP the context errors although the call's own context is fine (a mapper's per-item timeout)
+var (
+	verifWrapDeadline = fmt.Errorf("item timeout: %w", context.DeadlineExceeded)
+	verifWrapCanceled = fmt.Errorf("item cancelled: %w", context.Canceled)
+)
+
 func verifErrOf(code int) error {
 	switch code {
+	case 4:
+		return context.Canceled
+	case 5:
+		return context.DeadlineExceeded
+	case 6:
+		return verifWrapDeadline
+	case 7:
+		return verifWrapCanceled
 	case 0:
 		return nil
 	case 1:
@@ -187,6 +202,12 @@ func verifOutcome(v any, err error, void bool) map[string]any {
 		return map[string]any{"kind": "other", "s": fmt.Sprint(v)}
 	case errors.Is(err, ErrReduceNoOutput):
 		return map[string]any{"kind": "nooutput"}
+	case err == verifWrapDeadline: // identity first: the call must hand back THAT error value
+		return map[string]any{"kind": "err", "e": 6}
+	case err == verifWrapCanceled:
+		return map[string]any{"kind": "err", "e": 7}
+	case err == context.Canceled:
+		return map[string]any{"kind": "err", "e": 4}
 	case errors.Is(err, ErrCancelWithNil):
 		return map[string]any{"kind": "err", "e": -1}
 	case errors.Is(err, context.DeadlineExceeded):
@@ -253,7 +274,7 @@ func verifRun(c verifCase) map[string]any {
 
 	ctx := context.Background()
 	cancelCtx := func() {}
-	if c.Ctx == "pre" || c.Ctx == "live" || c.Ctx == "gate" {
+	if c.Ctx == "pre" || c.Ctx == "live" || c.Ctx == "gate" || c.Ctx == "rgate" {
 		ctx, cancelCtx = context.WithCancel(context.Background())
 		if c.Ctx == "pre" {
 			cancelCtx()
@@ -277,6 +298,7 @@ func verifRun(c verifCase) map[string]any {
 	var rdOnce sync.Once
 	var started int32
 	barrierCh := make(chan struct{})
+	reducerGate := make(chan struct{})
 	gateReached := make(chan struct{})
 	gateOpen := make(chan struct{})
 	itemIndex := func(item any) int {
@@ -376,6 +398,9 @@ func verifRun(c verifCase) map[string]any {
 	var reOnce sync.Once
 	reduceBody := func(pipe <-chan any, writer Writer) {
 		defer reOnce.Do(func() { close(reDone) })
+		if c.RRecover {
+			defer func() { _ = recover() }()
+		}
 		defer func() {
 			if r := recover(); r != nil {
 				if _, scripted := r.(verifPanic); !scripted {
@@ -409,6 +434,13 @@ func verifRun(c verifCase) map[string]any {
 			case "panic":
 				lg.add("rp", a.K)
 				panic(verifPanic{a.K})
+			case "ctxwaitret": // the mapping stage is over (pipe drained): have the context cancelled, return only after the call did
+				lg.add("rg")
+				close(reducerGate)
+				select {
+				case <-retCh:
+				case <-time.After(hangLimit + time.Second):
+				}
 			case "waitsent": // gate: proceed once the generator's send of item K has completed (bounded)
 				if ch, ok := sentCh[a.K]; ok {
 					select {
@@ -477,6 +509,14 @@ func verifRun(c verifCase) map[string]any {
 		time.Sleep(200 * time.Microsecond)
 	}
 
+	go func() { // context cancelled by the driver once the reducer waits at its gate
+		select {
+		case <-reducerGate:
+			lg.add("cx", len(c.Items))
+			cancelCtx()
+		case <-retCh:
+		}
+	}()
 	if c.Gate > 0 {
 		go func() {
 			select {
